@@ -8,47 +8,33 @@ namespace InfluxQL
 open Gen
 open InfluxQL.CondTime
 
-/-! ### what prints as `time` -/
-
-theorem print_binary (op : Token) (l r : Expr) :
-    (Expr.binary op l r).print = l.print ++ [' '] ++ op.str ++ [' '] ++ r.print := rfl
-
-theorem print_paren (e : Expr) : (Expr.paren e).print = ['('] ++ e.print ++ [')'] := rfl
-
-theorem print_boolean (b : Bool) :
-    (Expr.boolean b).print = if b then ['t', 'r', 'u', 'e'] else ['f', 'a', 'l', 's', 'e'] := by
-  cases b <;> rfl
-
-theorem print_binary_ne_time (op : Token) (l r : Expr) : (Expr.binary op l r).print ≠ timeText := by
-  intro h
-  have hm : ' ' ∈ (Expr.binary op l r).print := by rw [print_binary]; simp
-  rw [h] at hm
-  simp [timeText] at hm
-
-theorem print_paren_ne_time (e : Expr) : (Expr.paren e).print ≠ timeText := by
-  intro h
-  rw [print_paren] at h
-  simp [timeText] at h
-
-theorem print_boolean_ne_time (b : Bool) : (Expr.boolean b).print ≠ timeText := by
-  rw [print_boolean]
-  cases b <;> decide
-
 /-! ### residuals without time -/
 
 theorem isResTF_cases (tbl : List (Char × Char)) (e : Expr) (h : isResTF tbl e = true) :
     (∃ b, e = .boolean b) ∨ (∃ op l r, e = .binary op l r) ∨ (∃ x, e = .paren x) := by
   cases e <;> simp [isResTF] at h <;> simp
 
-theorem isResTF_print_ne_time (tbl : List (Char × Char)) (e : Expr) (h : isResTF tbl e = true) :
-    e.print ≠ timeText := by
-  rcases isResTF_cases tbl e h with ⟨b, rfl⟩ | ⟨op, l, r, rfl⟩ | ⟨x, rfl⟩
-  · exact print_boolean_ne_time b
-  · exact print_binary_ne_time op l r
-  · exact print_paren_ne_time x
+theorem isResTF_not_timeRef (tbl : List (Char × Char)) (e : Expr) (h : isResTF tbl e = true) :
+    isTimeRef tbl e = false := by
+  rcases isResTF_cases tbl e h with ⟨b, rfl⟩ | ⟨op, l, r, rfl⟩ | ⟨x, rfl⟩ <;> simp [isTimeRef]
 
-theorem rewriteNoTime_inert (e : Expr) (h : isInert e = true) : rewriteNoTime e = e := by
-  cases e <;> simp [isInert] at h <;> simp [rewriteNoTime]
+mutual
+  /-- The rewrite leaves references, literals and calls over them alone. -/
+  theorem rewriteNoTime_inert (tbl : List (Char × Char)) : ∀ (e : Expr), isInert e = true → rewriteNoTime tbl e = e
+    | .call n args, h => by
+      simp only [isInert, Bool.and_eq_true] at h
+      rw [rewriteNoTime, rewriteArgs_inert tbl args h.2]
+    | .varRef .., _ | .string _, _ | .number _, _ | .integer _, _ | .unsigned _, _ | .boolean _, _
+    | .duration _, _ | .regex _, _ => by simp [rewriteNoTime]
+    | .binary .., h | .paren _, h | .distinct _, h | .wildcard _, h | .time _, h | .nil, h
+    | .list _, h | .boundParam _, h => by simp [isInert] at h
+  theorem rewriteArgs_inert (tbl : List (Char × Char)) : ∀ (args : List Expr), isInertArgs args = true →
+      rewriteArgs tbl args = args
+    | [], _ => by simp [rewriteArgs]
+    | a :: rest, h => by
+      simp only [isInertArgs, Bool.and_eq_true] at h
+      rw [rewriteArgs, rewriteNoTime_inert tbl a h.1, rewriteArgs_inert tbl rest h.2]
+end
 
 theorem stable_inert (l r : Expr) (h : stablePred l r = true) : isInert l = true ∧ isInert r = true := by
   simp only [stablePred, Bool.or_eq_true, Bool.and_eq_true] at h
@@ -56,18 +42,20 @@ theorem stable_inert (l r : Expr) (h : stablePred l r = true) : isInert l = true
   · exact ⟨isRef_inert l a, b⟩
   · exact ⟨a, isRef_inert r b⟩
 
-/-- `rewriteNoTime` does nothing to a condition without time bounds and calls. -/
-theorem rewriteNoTime_resTF (tbl : List (Char × Char)) : ∀ (x : Expr), isResTF tbl x = true → rewriteNoTime x = x
+/-- `rewriteNoTime` does nothing to a condition without time bounds. -/
+theorem rewriteNoTime_resTF (tbl : List (Char × Char)) : ∀ (x : Expr), isResTF tbl x = true → rewriteNoTime tbl x = x
   | .binary op l r, h => by
     by_cases hop : op = .AND ∨ op = .OR
     · simp only [isResTF, hop, if_true, Bool.and_eq_true] at h
       have ihl := rewriteNoTime_resTF tbl l h.1
       have ihr := rewriteNoTime_resTF tbl r h.2
-      simp only [rewriteNoTime, ihl, ihr, isResTF_print_ne_time tbl l h.1, if_false]
-    · simp only [isResTF, hop, if_false, Bool.and_eq_true, bne_iff_ne, ne_eq] at h
-      obtain ⟨⟨⟨⟨_, hs⟩, hp⟩, _⟩, _⟩ := h
+      simp only [rewriteNoTime, ihl, ihr, isResTF_not_timeRef tbl l h.1, isResTF_not_timeRef tbl r h.2,
+        Bool.false_eq_true, or_self, if_false]
+    · simp only [isResTF, hop, if_false, Bool.and_eq_true, Bool.not_eq_true'] at h
+      obtain ⟨⟨⟨_, hs⟩, hl⟩, hr⟩ := h
       have hi := stable_inert l r hs
-      simp only [rewriteNoTime, rewriteNoTime_inert l hi.1, rewriteNoTime_inert r hi.2, hp, if_false]
+      simp only [rewriteNoTime, rewriteNoTime_inert tbl l hi.1, rewriteNoTime_inert tbl r hi.2, hl, hr,
+        Bool.false_eq_true, or_self, if_false]
   | .paren e, h => by
     simp only [isResTF] at h
     simp only [rewriteNoTime, rewriteNoTime_resTF tbl e h]
@@ -84,7 +72,7 @@ theorem isResTF_isRes (tbl : List (Char × Char)) : ∀ (x : Expr), isResTF tbl 
       exact ⟨isResTF_isRes tbl l h.1, isResTF_isRes tbl r h.2⟩
     · simp only [isResTF, hop, if_false, Bool.and_eq_true] at h
       simp only [isRes, hop, if_false]
-      exact h.1.1.1.2
+      exact h.1.1.2
   | .paren e, h => by
     simp only [isResTF] at h
     simp only [isRes]
@@ -112,27 +100,27 @@ theorem isResTF_timeFree (tbl : List (Char × Char)) : ∀ (x : Expr), isResTF t
   | .number .., h | .integer .., h | .unsigned .., h | .duration .., h | .time .., h | .nil, h
   | .list .., h | .boundParam .., h => by simp [isResTF] at h
 
-theorem isResTF_timeOnLeft (tbl : List (Char × Char)) : ∀ (x : Expr), isResTF tbl x = true → timeOnLeft tbl x = true
+theorem isResTF_strClass (tbl : List (Char × Char)) : ∀ (x : Expr), isResTF tbl x = true → strClass tbl x = true
   | .binary op l r, h => by
     by_cases hand : op = .AND
     · subst hand
       simp only [isResTF, true_or, if_true, Bool.and_eq_true] at h
-      simp only [timeOnLeft, if_true, Bool.and_eq_true]
-      exact ⟨isResTF_timeOnLeft tbl l h.1, isResTF_timeOnLeft tbl r h.2⟩
+      simp only [strClass, if_true, Bool.and_eq_true]
+      exact ⟨isResTF_strClass tbl l h.1, isResTF_strClass tbl r h.2⟩
     · by_cases hor : op = .OR
       · subst hor
         simp only [isResTF, or_true, if_true, Bool.and_eq_true] at h
-        simp only [timeOnLeft, hand, if_false, if_true, Bool.and_eq_true]
-        exact ⟨⟨⟨isResTF_timeOnLeft tbl l h.1, isResTF_timeOnLeft tbl r h.2⟩, isResTF_timeFree tbl l h.1⟩, isResTF_timeFree tbl r h.2⟩
+        simp only [strClass, hand, if_false, if_true, Bool.and_eq_true]
+        exact ⟨⟨⟨isResTF_strClass tbl l h.1, isResTF_strClass tbl r h.2⟩, isResTF_timeFree tbl l h.1⟩, isResTF_timeFree tbl r h.2⟩
       · have hop : ¬ (op = .AND ∨ op = .OR) := fun h => h.elim hand hor
         simp only [isResTF, hop, if_false, Bool.and_eq_true, Bool.not_eq_true'] at h
-        obtain ⟨⟨⟨⟨hp, hs⟩, hpr⟩, hl⟩, hr⟩ := h
-        simp [timeOnLeft, hand, hor, hl, hr, hp, hs, hpr]
+        obtain ⟨⟨⟨hp, hs⟩, hl⟩, hr⟩ := h
+        simp [strClass, hand, hor, hl, hr, hp, hs]
   | .paren e, h => by
     simp only [isResTF] at h
-    simp only [timeOnLeft]
-    exact isResTF_timeOnLeft tbl e h
-  | .boolean b, _ => by simp [timeOnLeft]
+    simp only [strClass]
+    exact isResTF_strClass tbl e h
+  | .boolean b, _ => by simp [strClass]
   | .call .., h | .varRef .., h | .distinct .., h | .wildcard .., h | .regex .., h | .string .., h
   | .number .., h | .integer .., h | .unsigned .., h | .duration .., h | .time .., h | .nil, h
   | .list .., h | .boundParam .., h => by simp [isResTF] at h
@@ -148,49 +136,52 @@ theorem isTimeRef_varRef (tbl : List (Char × Char)) (l : Expr) (h : isTimeRef t
 
 /-- On the class, `rewriteNoTime` replaces exactly the time bounds by `true`: the result has no
 reference to time and its value is the non-time part of the condition. -/
-theorem rewrite_timeOnLeft (tbl : List (Char × Char)) (L : Expr → Bool) : ∀ (c : Expr), timeOnLeft tbl c = true →
-    isResTF tbl (rewriteNoTime c) = true ∧ evalB L (rewriteNoTime c) = nonTimeHolds tbl L c
+theorem rewrite_strClass (tbl : List (Char × Char)) (L : Expr → Bool) : ∀ (c : Expr), strClass tbl c = true →
+    isResTF tbl (rewriteNoTime tbl c) = true ∧ evalB L (rewriteNoTime tbl c) = nonTimeHolds tbl L c
   | .binary op l r, h => by
     by_cases hand : op = .AND
     · subst hand
-      simp only [timeOnLeft, if_true, Bool.and_eq_true] at h
-      have ihl := rewrite_timeOnLeft tbl L l h.1
-      have ihr := rewrite_timeOnLeft tbl L r h.2
-      simp only [rewriteNoTime, isResTF_print_ne_time tbl _ ihl.1, if_false]
+      simp only [strClass, if_true, Bool.and_eq_true] at h
+      have ihl := rewrite_strClass tbl L l h.1
+      have ihr := rewrite_strClass tbl L r h.2
+      simp only [rewriteNoTime, isResTF_not_timeRef tbl _ ihl.1, isResTF_not_timeRef tbl _ ihr.1,
+        Bool.false_eq_true, or_self, if_false]
       simp [isResTF, evalB, nonTimeHolds, ihl.1, ihr.1, ihl.2, ihr.2]
     · by_cases hor : op = .OR
       · subst hor
-        simp only [timeOnLeft, hand, if_false, if_true, Bool.and_eq_true] at h
-        have ihl := rewrite_timeOnLeft tbl L l h.1.1.1
-        have ihr := rewrite_timeOnLeft tbl L r h.1.1.2
-        simp only [rewriteNoTime, isResTF_print_ne_time tbl _ ihl.1, if_false]
+        simp only [strClass, hand, if_false, if_true, Bool.and_eq_true] at h
+        have ihl := rewrite_strClass tbl L l h.1.1.1
+        have ihr := rewrite_strClass tbl L r h.1.1.2
+        simp only [rewriteNoTime, isResTF_not_timeRef tbl _ ihl.1, isResTF_not_timeRef tbl _ ihr.1,
+          Bool.false_eq_true, or_self, if_false]
         simp [isResTF, evalB, nonTimeHolds, ihl.1, ihr.1, ihl.2, ihr.2]
-      · have hop : ¬ (op = .AND ∨ op = .OR) := fun h => h.elim hand hor
-        simp only [timeOnLeft, hand, hor, if_false] at h
+      · simp only [strClass, hand, hor, if_false] at h
         by_cases htl : isTimeRef tbl l = true
-        · simp only [htl, if_true, beq_iff_eq] at h
-          obtain ⟨v, t, rfl⟩ := isTimeRef_varRef tbl l htl
-          have : rewriteNoTime (.varRef v t) = .varRef v t := by simp [rewriteNoTime]
-          simp only [rewriteNoTime, h, if_true]
+        · obtain ⟨v, t, rfl⟩ := isTimeRef_varRef tbl l htl
+          have hv : rewriteNoTime tbl (.varRef v t) = .varRef v t := by simp [rewriteNoTime]
+          simp only [rewriteNoTime, hv, htl, true_or, if_true]
           simp [isResTF, evalB, nonTimeHolds, hand, hor, htl]
         · have htl' : isTimeRef tbl l = false := by simpa using htl
-          simp only [htl', Bool.false_eq_true, if_false] at h
           by_cases htr : isTimeRef tbl r = true
-          · simp [htr] at h
+          · obtain ⟨v, t, rfl⟩ := isTimeRef_varRef tbl r htr
+            have hv : rewriteNoTime tbl (.varRef v t) = .varRef v t := by simp [rewriteNoTime]
+            simp only [rewriteNoTime, hv, htr, or_true, if_true]
+            simp [isResTF, evalB, nonTimeHolds, hand, hor, htr]
           · have htr' : isTimeRef tbl r = false := by simpa using htr
-            simp only [htr', Bool.false_eq_true, if_false, Bool.and_eq_true, bne_iff_ne, ne_eq] at h
-            obtain ⟨⟨hp, hs⟩, hpr⟩ := h
+            simp only [htl', htr', Bool.false_eq_true, or_self, if_false, Bool.and_eq_true] at h
+            obtain ⟨hp, hs⟩ := h
             have hi := stable_inert l r hs
-            simp only [rewriteNoTime, rewriteNoTime_inert l hi.1, rewriteNoTime_inert r hi.2, hpr, if_false]
-            simp [isResTF, evalB, nonTimeHolds, hand, hor, htl', htr', hp, hs, hpr]
+            simp only [rewriteNoTime, rewriteNoTime_inert tbl l hi.1, rewriteNoTime_inert tbl r hi.2, htl', htr',
+              Bool.false_eq_true, or_self, if_false]
+            simp [isResTF, evalB, nonTimeHolds, hand, hor, htl', htr', hp, hs]
   | .paren e, h => by
-    simp only [timeOnLeft] at h
-    have ih := rewrite_timeOnLeft tbl L e h
+    simp only [strClass] at h
+    have ih := rewrite_strClass tbl L e h
     simp [rewriteNoTime, isResTF, evalB, nonTimeHolds, ih.1, ih.2]
   | .boolean b, _ => by simp [rewriteNoTime, isResTF, evalB, nonTimeHolds]
   | .call .., h | .varRef .., h | .distinct .., h | .wildcard .., h | .regex .., h | .string .., h
   | .number .., h | .integer .., h | .unsigned .., h | .duration .., h | .time .., h | .nil, h
-  | .list .., h | .boundParam .., h => by simp [timeOnLeft] at h
+  | .list .., h | .boundParam .., h => by simp [strClass] at h
 
 /-- Without time comparisons, the meaning of a condition is its logical skeleton over `L`. -/
 theorem holds_timeFree (c : CCtx) (L : Expr → Bool) (t : Int) : ∀ (e : Expr), timeFree c.lowerTbl e = true →
@@ -274,7 +265,7 @@ theorem reduce_resTF (tbl : List (Char × Char)) (c : RCtx) : ∀ (x : Expr), is
       simp only [isResTF, hop, if_false, Bool.and_eq_true] at h
       have hand : op ≠ .AND := fun e => hop (Or.inl e)
       have hor : op ≠ .OR := fun e => hop (Or.inr e)
-      rw [reduce_stable c op l r hand hor h.1.1.1.2]
+      rw [reduce_stable c op l r hand hor h.1.1.2]
       exact ⟨h', Nat.le_refl _⟩
   | .paren e, h => by
     simp only [isResTF] at h
@@ -314,8 +305,8 @@ theorem reduce_geBound (c : RCtx) (s : Int) : creduce c (geBound s) = geBound s 
 theorem reduce_ltBound (c : RCtx) (s : Int) : creduce c (ltBound s) = ltBound s :=
   reduce_stable c .LT timeVar _ (by decide) (by decide) (stable_bound _)
 
-theorem stepSpec_eq (fa : FloatArith) (c : Expr) (w : Window) :
-    stepSpec fa c w = build fa (creduce (nilRCtx fa) (rewriteNoTime c)) w := by
+theorem stepSpec_eq (fa : FloatArith) (tbl : List (Char × Char)) (c : Expr) (w : Window) :
+    stepSpec fa tbl c w = build fa (creduce (nilRCtx fa) (rewriteNoTime tbl c)) w := by
   unfold stepSpec expectedTree build
   rw [creduce, creduce, reduce_geBound, reduce_ltBound]
 
@@ -343,19 +334,20 @@ theorem holds_ltBound (c : CCtx) (L : Expr → Bool) (t s : Int) (hT : isTimeRef
     holds c L t (ltBound s) = decide (t < s) := by
   simp [ltBound, holds, hT, instant, h1, h2, cmpInstant]
 
-theorem timeVar_print : timeVar.print = timeText := by decide
-
-theorem rewrite_bound (op : Token) (x : Expr) : rewriteNoTime (.binary op timeVar x) = .boolean true := by
-  have h : (rewriteNoTime timeVar).print = timeText := by decide
-  simp only [rewriteNoTime, h, if_true]
+/-- A comparison with `time` on the left is replaced by `true`, whatever the operator and the
+other operand. -/
+theorem rewrite_bound (tbl : List (Char × Char)) (op : Token) (x : Expr) (hT : isTimeRef tbl timeVar = true) :
+    rewriteNoTime tbl (.binary op timeVar x) = .boolean true := by
+  have hv : rewriteNoTime tbl timeVar = timeVar := by simp [rewriteNoTime, timeVar]
+  simp only [rewriteNoTime, hv, hT, true_or, if_true]
 
 
 
 /-! ### properties of the condition after one call -/
 
-theorem timeOnLeft_bound (tbl : List (Char × Char)) (op : Token) (x : Expr) (hand : op ≠ .AND) (hor : op ≠ .OR)
-    (hT : isTimeRef tbl timeVar = true) : timeOnLeft tbl (.binary op timeVar x) = true := by
-  simp [timeOnLeft, hand, hor, hT, timeVar_print]
+theorem strClass_bound (tbl : List (Char × Char)) (op : Token) (x : Expr) (hand : op ≠ .AND) (hor : op ≠ .OR)
+    (hT : isTimeRef tbl timeVar = true) : strClass tbl (.binary op timeVar x) = true := by
+  simp [strClass, hand, hor, hT]
 
 theorem nonTimeHolds_bound (tbl : List (Char × Char)) (L : Expr → Bool) (op : Token) (x : Expr)
     (hand : op ≠ .AND) (hor : op ≠ .OR) (hT : isTimeRef tbl timeVar = true) :
@@ -368,21 +360,21 @@ theorem size_ltBound (s : Int) : (ltBound s).size = 3 := rfl
 /-- Everything the later theorems need about the condition after one call. -/
 theorem build_spec (ctx : CCtx) (fa : FloatArith) (N : Expr) (w : Window)
     (hN : isResTF ctx.lowerTbl N = true) (hT : isTimeRef ctx.lowerTbl timeVar = true) :
-    timeOnLeft ctx.lowerTbl (build fa N w) = true ∧
+    strClass ctx.lowerTbl (build fa N w) = true ∧
     (∀ L, nonTimeHolds ctx.lowerTbl L (build fa N w) = evalB L N) ∧
     (WindowOK ctx w → ∀ L t, holds ctx L t (build fa N w) = (w.contains t && evalB L N)) ∧
     (build fa N w).size ≤ N.size + 8 ∧
-    creduce (nilRCtx fa) (rewriteNoTime (build fa N w)) = creduce (nilRCtx fa) N := by
-  have hge_tol := timeOnLeft_bound ctx.lowerTbl .GTE (.string (formatRFC3339Nano w.start)) (by decide) (by decide) hT
-  have hlt_tol := timeOnLeft_bound ctx.lowerTbl .LT (.string (formatRFC3339Nano w.stop)) (by decide) (by decide) hT
+    creduce (nilRCtx fa) (rewriteNoTime ctx.lowerTbl (build fa N w)) = creduce (nilRCtx fa) N := by
+  have hge_tol := strClass_bound ctx.lowerTbl .GTE (.string (formatRFC3339Nano w.start)) (by decide) (by decide) hT
+  have hlt_tol := strClass_bound ctx.lowerTbl .LT (.string (formatRFC3339Nano w.stop)) (by decide) (by decide) hT
   have hge_nt := fun L => nonTimeHolds_bound ctx.lowerTbl L .GTE (.string (formatRFC3339Nano w.start)) (by decide) (by decide) hT
   have hlt_nt := fun L => nonTimeHolds_bound ctx.lowerTbl L .LT (.string (formatRFC3339Nano w.stop)) (by decide) (by decide) hT
-  have hge_rw : rewriteNoTime (geBound w.start) = .boolean true := rewrite_bound .GTE _
-  have hlt_rw : rewriteNoTime (ltBound w.stop) = .boolean true := rewrite_bound .LT _
+  have hge_rw : rewriteNoTime ctx.lowerTbl (geBound w.start) = .boolean true := rewrite_bound ctx.lowerTbl .GTE _ hT
+  have hlt_rw : rewriteNoTime ctx.lowerTbl (ltBound w.stop) = .boolean true := rewrite_bound ctx.lowerTbl .LT _ hT
   rcases build_cases ctx.lowerTbl fa N w hN with ⟨rfl, hb⟩ | ⟨rfl, hb⟩ | ⟨hnb, hb⟩
   · rw [hb]
     refine ⟨?_, ?_, ?_, ?_, ?_⟩
-    · simp only [timeOnLeft, if_true, Bool.and_eq_true]; exact ⟨hge_tol, hlt_tol⟩
+    · simp only [strClass, if_true, Bool.and_eq_true]; exact ⟨hge_tol, hlt_tol⟩
     · intro L
       simp only [nonTimeHolds, if_true]
       rw [show nonTimeHolds ctx.lowerTbl L (geBound w.start) = true from hge_nt L,
@@ -393,13 +385,14 @@ theorem build_spec (ctx : CCtx) (fa : FloatArith) (N : Expr) (w : Window)
       rw [holds_logical_and, holds_geBound ctx L t w.start hT a1 a2, holds_ltBound ctx L t w.stop hT a3 a4]
       simp [Window.contains, evalB]
     · rw [size_binary, size_geBound, size_ltBound, size_boolean]; omega
-    · have h1 : rewriteNoTime (.binary .AND (geBound w.start) (ltBound w.stop)) = .binary .AND (.boolean true) (.boolean true) := by
+    · have h1 : rewriteNoTime ctx.lowerTbl (.binary .AND (geBound w.start) (ltBound w.stop))
+          = .binary .AND (.boolean true) (.boolean true) := by
         rw [rewriteNoTime, hge_rw, hlt_rw]
-        simp [print_boolean_ne_time]
+        simp [isTimeRef]
       rw [h1]
       simp [creduce, reduceBin]
   · rw [hb]
-    refine ⟨by simp [timeOnLeft], ?_, ?_, ?_, ?_⟩
+    refine ⟨by simp [strClass], ?_, ?_, ?_, ?_⟩
     · intro L; simp [nonTimeHolds, evalB]
     · intro _ L t; simp [holds, evalB]
     · rw [size_boolean]; omega
@@ -408,8 +401,8 @@ theorem build_spec (ctx : CCtx) (fa : FloatArith) (N : Expr) (w : Window)
     have hres := isResTF_isRes ctx.lowerTbl N hN
     have htf := isResTF_timeFree ctx.lowerTbl N hN
     refine ⟨?_, ?_, ?_, ?_, ?_⟩
-    · simp only [timeOnLeft, if_true, Bool.and_eq_true]
-      exact ⟨⟨isResTF_timeOnLeft ctx.lowerTbl N hN, hge_tol⟩, hlt_tol⟩
+    · simp only [strClass, if_true, Bool.and_eq_true]
+      exact ⟨⟨isResTF_strClass ctx.lowerTbl N hN, hge_tol⟩, hlt_tol⟩
     · intro L
       simp only [nonTimeHolds, if_true]
       rw [show nonTimeHolds ctx.lowerTbl L (geBound w.start) = true from hge_nt L,
@@ -423,14 +416,15 @@ theorem build_spec (ctx : CCtx) (fa : FloatArith) (N : Expr) (w : Window)
       simp only [Window.contains]
       cases evalB L N <;> cases decide (w.start ≤ t) <;> cases decide (t < w.stop) <;> rfl
     · rw [size_binary, size_binary, size_geBound, size_ltBound]; omega
-    · have hNp := isResTF_print_ne_time ctx.lowerTbl N hN
-      have h1 : rewriteNoTime (.binary .AND (.binary .AND N (geBound w.start)) (ltBound w.stop))
+    · have hNp := isResTF_not_timeRef ctx.lowerTbl N hN
+      have h1 : rewriteNoTime ctx.lowerTbl (.binary .AND (.binary .AND N (geBound w.start)) (ltBound w.stop))
           = .binary .AND (.binary .AND N (.boolean true)) (.boolean true) := by
-        have h2 : rewriteNoTime (.binary .AND N (geBound w.start)) = .binary .AND N (.boolean true) := by
+        have h2 : rewriteNoTime ctx.lowerTbl (.binary .AND N (geBound w.start)) = .binary .AND N (.boolean true) := by
+          have hbt : isTimeRef ctx.lowerTbl (.boolean true) = false := rfl
           rw [rewriteNoTime, rewriteNoTime_resTF ctx.lowerTbl N hN, hge_rw]
-          simp [hNp]
+          simp only [hNp, hbt, Bool.false_eq_true, or_self, if_false]
         rw [rewriteNoTime, h2, hlt_rw]
-        simp [print_binary_ne_time]
+        simp [isTimeRef]
       rw [h1, creduce, creduce]
       have hr := reduce_resTF ctx.lowerTbl (nilRCtx fa) N hN
       have hb1 : creduce (nilRCtx fa) (.boolean true) = .boolean true := by simp [creduce]
@@ -442,49 +436,62 @@ theorem build_spec (ctx : CCtx) (fa : FloatArith) (N : Expr) (w : Window)
 
 theorem size_call (n : Str) (args : List Expr) : (Expr.call n args).size = 1 + sizeArgs args := rfl
 
-/-- The rewrite only replaces subtrees by the single node `true`. -/
-theorem rewriteNoTime_size : ∀ (c : Expr), (rewriteNoTime c).size ≤ c.size
-  | .binary op l r => by
-    have ihl := rewriteNoTime_size l
-    have ihr := rewriteNoTime_size r
-    rw [rewriteNoTime, size_binary]
-    split
-    · rw [size_boolean]; omega
-    · rw [size_binary]; omega
-  | .paren e => by
-    have ih := rewriteNoTime_size e
-    rw [rewriteNoTime, size_paren, size_paren]; omega
-  | .call n args => by
-    rw [rewriteNoTime, size_boolean, size_call]; omega
-  | .varRef .. | .distinct .. | .wildcard .. | .regex .. | .string ..
-  | .number .. | .integer .. | .unsigned .. | .duration .. | .time .. | .nil
-  | .list .. | .boundParam .. | .boolean .. => by simp [rewriteNoTime]
+theorem sizeArgs_cons (a : Expr) (rest : List Expr) : sizeArgs (a :: rest) = a.size + sizeArgs rest := rfl
+
+mutual
+  /-- The rewrite only replaces subtrees by the single node `true`. -/
+  theorem rewriteNoTime_size (tbl : List (Char × Char)) : ∀ (c : Expr), (rewriteNoTime tbl c).size ≤ c.size
+    | .binary op l r => by
+      have ihl := rewriteNoTime_size tbl l
+      have ihr := rewriteNoTime_size tbl r
+      rw [rewriteNoTime, size_binary]
+      split
+      · rw [size_boolean]; omega
+      · rw [size_binary]; omega
+    | .paren e => by
+      have ih := rewriteNoTime_size tbl e
+      rw [rewriteNoTime, size_paren, size_paren]; omega
+    | .call n args => by
+      have ih := rewriteArgs_size tbl args
+      rw [rewriteNoTime, size_call, size_call]; omega
+    | .varRef .. | .distinct .. | .wildcard .. | .regex .. | .string ..
+    | .number .. | .integer .. | .unsigned .. | .duration .. | .time .. | .nil
+    | .list .. | .boundParam .. | .boolean .. => by simp [rewriteNoTime]
+  theorem rewriteArgs_size (tbl : List (Char × Char)) : ∀ (args : List Expr),
+      sizeArgs (rewriteArgs tbl args) ≤ sizeArgs args
+    | [] => by simp [rewriteArgs]
+    | a :: rest => by
+      have h1 := rewriteNoTime_size tbl a
+      have h2 := rewriteArgs_size tbl rest
+      rw [rewriteArgs, sizeArgs_cons, sizeArgs_cons]; omega
+end
 
 /-- The reduced non-time part of a condition. -/
-def ntPart (fa : FloatArith) (c : Expr) : Expr := creduce (nilRCtx fa) (rewriteNoTime c)
+def ntPart (fa : FloatArith) (tbl : List (Char × Char)) (c : Expr) : Expr :=
+  creduce (nilRCtx fa) (rewriteNoTime tbl c)
 
-theorem ntPart_spec (tbl : List (Char × Char)) (fa : FloatArith) (c : Expr) (h : timeOnLeft tbl c = true) :
-    isResTF tbl (ntPart fa c) = true ∧ (∀ L, evalB L (ntPart fa c) = nonTimeHolds tbl L c) ∧
-    (ntPart fa c).size ≤ c.size := by
-  have hr := fun L => rewrite_timeOnLeft tbl L c h
+theorem ntPart_spec (tbl : List (Char × Char)) (fa : FloatArith) (c : Expr) (h : strClass tbl c = true) :
+    isResTF tbl (ntPart fa tbl c) = true ∧ (∀ L, evalB L (ntPart fa tbl c) = nonTimeHolds tbl L c) ∧
+    (ntPart fa tbl c).size ≤ c.size := by
+  have hr := fun L => rewrite_strClass tbl L c h
   have hP := (hr (fun _ => false)).1
   have h1 := reduce_resTF tbl (nilRCtx fa) _ hP
   refine ⟨h1.1, ?_, ?_⟩
   · intro L
     rw [ntPart, (reduce_res (nilRCtx fa) L _ (isResTF_isRes tbl _ hP)).2, (hr L).2]
-  · exact Nat.le_trans h1.2 (rewriteNoTime_size c)
+  · exact Nat.le_trans h1.2 (rewriteNoTime_size tbl c)
 
 /-- Under the print → parse hypothesis, `SetTimeRange` computes `stepSpec`. -/
 theorem setTimeRange_of_RT (tbl : List (Char × Char)) (fa : FloatArith) (c : Expr) (w : Window)
-    (hcls : timeOnLeft tbl c = true) (hrt : RT tbl c w) :
-    setTimeRange fa tbl (some c) w = .ok (stepSpec fa c w) := by
+    (hcls : strClass tbl c = true) (hrt : RT tbl c w) :
+    setTimeRange fa tbl (some c) w = .ok (stepSpec fa tbl c w) := by
   unfold setTimeRange
   rw [hrt]
   simp only [CReduce]
-  have hs : creduce (nilRCtx fa) (expectedTree c w) = stepSpec fa c w := rfl
+  have hs : creduce (nilRCtx fa) (expectedTree tbl c w) = stepSpec fa tbl c w := rfl
   rw [hs, stepSpec_eq]
   have hN := (ntPart_spec tbl fa c hcls).1
-  rcases build_cases tbl fa (ntPart fa c) w hN with ⟨_, hb⟩ | ⟨_, hb⟩ | ⟨_, hb⟩ <;>
+  rcases build_cases tbl fa (ntPart fa tbl c) w hN with ⟨_, hb⟩ | ⟨_, hb⟩ | ⟨_, hb⟩ <;>
     (unfold ntPart at hb; rw [hb])
 
 
@@ -510,7 +517,7 @@ theorem conditionExpr_resTF (ctx : CCtx) : ∀ (N : Expr), isResTF ctx.lowerTbl 
         exact evalB_logical L op _ _ _ _ hop (hl3 L) (hr3 L)
     · have h' := h
       simp only [isResTF, hop, if_false, Bool.and_eq_true, Bool.not_eq_true'] at h
-      obtain ⟨⟨⟨⟨_, hs⟩, _⟩, htl⟩, htr⟩ := h
+      obtain ⟨⟨⟨_, hs⟩, htl⟩, htr⟩ := h
       have hand : op ≠ .AND := fun e => hop (Or.inl e)
       have hor : op ≠ .OR := fun e => hop (Or.inr e)
       refine ⟨.binary op l r, ?_, by simp [isRes, hop, hs], fun _ => rfl⟩
